@@ -652,6 +652,13 @@ PROPS["C06"]["families"] += [
     Family("core3-faces", "core3", r_core3("faces", 1, 1), 50, [(52, "err_noop3", ERR_CLASSES)], exhaustive=True),
 ]
 PROPS["C06"]["trusted"] = PROPS["C06"]["trusted"] + MAP3_TRUST[3:]
+PROPS["C06"]["families"] += [
+    Family("fault3-enum", "core3", r_core3("fault", 400, 6000, 10, ["--darts", "10"]), 50, [(52, "err_noop3", ERR_CLASSES)]),
+]
+PROPS["C08"]["families"] += [
+    Family("compose3", "core3", r_core3("compose", 1200, 25000, 10, ["--darts", "10"]), 50, [], pair=True),
+]
+PROPS["C08"]["trusted"] = PROPS["C08"]["trusted"] + MAP3_TRUST[3:]
 PROPS["C18"]["families"] += [
     Family("core3-random", "core3", r_core3("random", 1200, 25000, 25, ["--darts", "10"]), 50, [(55, "alloc_step3", ALLOC_CLASSES)]),
 ]
